@@ -722,7 +722,10 @@ pub(crate) mod verif_hooks {
         any_char, char, check_char, one_of, str, take_until1, take_while0, take_while1,
     };
 
-    pub(crate) fn combinator<'i>(name: &str, input: &'i str) -> Option<Option<(&'i str, &'i str)>> {
+    pub(crate) fn combinator<'i>(
+        name: &str,
+        input: &'i str,
+    ) -> Option<Option<(&'i str, &'i str)>> {
         let only_rest = |r: Option<&'i str>| r.map(|r| (r, &input[..0]));
         Some(match name {
             "char_brace" => only_rest(char('}')(input)),
@@ -736,7 +739,9 @@ pub(crate) mod verif_hooks {
             "tw1_digit" => take_while1(check_char(|c| c.is_ascii_digit()))(input),
             "tw1_ws" => take_while1(check_char(char::is_whitespace))(input),
             "tu1_any_brace" => take_until1(any_char, one_of("{}"))(input),
-            "tu1_ws_wide" => take_until1(check_char(char::is_whitespace), char('\u{3000}'))(input),
+            "tu1_ws_wide" => {
+                take_until1(check_char(char::is_whitespace), char('\u{3000}'))(input)
+            }
             _ => return None,
         })
     }
